@@ -121,6 +121,8 @@ func (o op) String() string {
 		return fmt.Sprintf("resize(%dx%d quiet=%v)", o.W, o.H, o.Quiet)
 	case "winsizefail":
 		return fmt.Sprintf("WindowSize fails=%v", o.Lock)
+	case "queuefull":
+		return fmt.Sprintf("application stops polling with a full event queue=%v", o.Lock)
 	case "writefault":
 		return fmt.Sprintf("next tty write fails after %d bytes", o.Seed)
 	case "reset-same":
@@ -235,8 +237,23 @@ func drawOps(t *rapid.T, maxW, maxH int, withResize bool) []op {
 	n := rapid.IntRange(1, 45).Draw(t, "nops")
 	var ops []op
 	for i := 0; i < n; i++ {
-		k := rapid.IntRange(0, 36).Draw(t, "op")
+		k := rapid.IntRange(0, 38).Draw(t, "op")
 		switch {
+		case k == 38 && withResize:
+			// the application stops polling and the event queue is full (or
+			// it takes polling up again)
+			ops = append(ops, op{Kind: "queuefull", Lock: rapid.IntRange(0, 2).Draw(t, "qfull") != 0})
+		case k == 37:
+			// a region locked again on every redraw (as _demos/sixel.go does)
+			// and unlocked once: it is unlocked
+			o := op{Kind: "lock", X: rapid.IntRange(0, maxW-1).Draw(t, "rlx"), Y: rapid.IntRange(0, maxH-1).Draw(t, "rly"),
+				W: rapid.IntRange(1, 4).Draw(t, "rlw"), H: rapid.IntRange(1, 3).Draw(t, "rlh"), Lock: true}
+			ops = append(ops, o)
+			for j, m := 0, rapid.IntRange(1, 3).Draw(t, "relocks"); j < m; j++ {
+				ops = append(ops, op{Kind: "show"}, o)
+			}
+			o.Lock = false
+			ops = append(ops, o, op{Kind: "show"})
 		case k == 36 && withResize && maxW > 2:
 			// the cursor is asked for at a cell the window does not have yet;
 			// when the window has grown it is shown there
@@ -1088,6 +1105,17 @@ func (w *dw) appActor() {
 		case "resize":
 			w.Tty.WinSizeFail = false
 			w.doResize(o)
+		case "queuefull":
+			if p := w.S.Find("poller"); p != nil {
+				if o.Lock {
+					w.S.Stall(p)
+					for sc.PostEvent(tcell.NewEventInterrupt(nil)) == nil {
+					}
+					w.Tty.Faults.Inc("event_queue_full")
+				} else {
+					w.S.Unstall(p)
+				}
+			}
 		case "winsizefail":
 			// the size query fails for a while: the library must keep drawing
 			// at the size it knows (the size itself does not change meanwhile)
